@@ -283,8 +283,8 @@ func specUploader(u *uploader) bool {
 //@   loop 4: invariant forall k string :: !in(k, x.Stacks)
 //@   loop 5: invariant forall k string :: in(k, x.Counters) ==> in(k, p.Counters) && cfg.HasCounter(p.Program, k) && report.X <= cfg.Rate(p.Program, k) && x.Counters[k] == p.Counters[k]
 //@   at loop 5 entry: assert forall k string :: in(k, p.Counters) && cfg.HasCounter(p.Program, k) && report.X <= cfg.Rate(p.Program, k) ==> in(k, x.Counters)
-//@   loop 5: invariant forall k string :: in(k, x.Stacks) ==> in(k, p.Stacks) && cfg.HasStack(p.Program, config.SpecStackName(k)) && report.X <= cfg.Rate(p.Program, config.SpecStackName(k)) && x.Stacks[k] == p.Stacks[k]
-//@   loop 5: invariant forall k string :: visited(p.Stacks, k) && cfg.HasStack(p.Program, config.SpecStackName(k)) && report.X <= cfg.Rate(p.Program, config.SpecStackName(k)) ==> in(k, x.Stacks)
+//@   loop 5: invariant forall k string :: in(k, x.Stacks) ==> in(k, p.Stacks) && cfg.HasStack(p.Program, config.SpecStackName(k)) && report.X <= cfg.StackRate(p.Program, config.SpecStackName(k)) && x.Stacks[k] == p.Stacks[k]
+//@   loop 5: invariant forall k string :: visited(p.Stacks, k) && cfg.HasStack(p.Program, config.SpecStackName(k)) && report.X <= cfg.StackRate(p.Program, config.SpecStackName(k)) ==> in(k, x.Stacks)
 // ... so that at the end of each program's iteration (loop 3) the entry appended
 // to the upload report is exactly the approved part of the local entry, for an
 // approved program build, with the five metadata fields copied.
@@ -293,7 +293,7 @@ func specUploader(u *uploader) bool {
 //@   at loop 3 end: assert cfg.HasGoVersion(x.GoVersion) && cfg.HasProgram(x.Program) && cfg.HasVersion(x.Program, x.Version) && cfg.HasGOOS(x.GOOS) && cfg.HasGOARCH(x.GOARCH)
 //@   at loop 3 end: assert forall k string :: in(k, x.Counters) ==> in(k, p.Counters) && cfg.HasCounter(p.Program, k) && report.X <= cfg.Rate(p.Program, k)
 //@   at loop 3 end: assert forall k string :: in(k, x.Counters) ==> x.Counters[k] == p.Counters[k]
-//@   at loop 3 end: assert forall k string :: in(k, x.Stacks) <==> in(k, p.Stacks) && cfg.HasStack(p.Program, config.SpecStackName(k)) && report.X <= cfg.Rate(p.Program, config.SpecStackName(k))
+//@   at loop 3 end: assert forall k string :: in(k, x.Stacks) <==> in(k, p.Stacks) && cfg.HasStack(p.Program, config.SpecStackName(k)) && report.X <= cfg.StackRate(p.Program, config.SpecStackName(k))
 //@   at loop 3 end: assert forall k string :: in(k, x.Stacks) ==> x.Stacks[k] == p.Stacks[k]
 //@   at loop 3 end: assert len(upload.Programs) >= 1 && upload.Programs[len(upload.Programs)-1] == x
 //@   loop 3: invariant forall j int :: 0 <= j && j < len(upload.Programs) ==> upload.Programs[j] != nil && cfg.HasGoVersion(upload.Programs[j].GoVersion) && cfg.HasProgram(upload.Programs[j].Program) && cfg.HasVersion(upload.Programs[j].Program, upload.Programs[j].Version)
